@@ -40,9 +40,29 @@ var lowLimit = gen.Profile{
 
 func genLow(t *rapid.T) sim.Scenario { return gen.ServerScenario(t, lowLimit) }
 
+// highLimit: "up to the concurrency limit" also for limits above the number of
+// CPUs: many calls, mostly one per message, stay parked, then later requests
+// (and a few notifications) arrive.
+var highLimit = gen.Profile{
+	PrefixGates: [2]int{14, 30},
+	MinSteps:    3, MaxSteps: 12, Limits: []int{17, 18, 20, 24, 33},
+	PNote: 25, PGate: 60, PInvalid: 2, PUnknown: 3, PBatch: 30, MaxBatch: 3,
+	PCancel: 3, PBurst: 35, PObey: 30, Builtins: false, Pins: true, PRelease: 15,
+	Outcomes: []string{"ok", "err:-32000"},
+	Chans:    []string{"direct", "pipe"},
+}
+
+func genHigh(t *rapid.T) sim.Scenario { return gen.ServerScenario(t, highLimit) }
+
 func run(t *testing.T, sc sim.Scenario) engine.Verdict {
 	return oracle.RunServer(t, sc, []string{"C03/"}, func(f oracle.Facts) bool {
 		return f.BarrierExercised
+	})
+}
+
+func runHigh(t *testing.T, sc sim.Scenario) engine.Verdict {
+	return oracle.RunServer(t, sc, []string{"C03/"}, func(f oracle.Facts) bool {
+		return f.MaxParked >= 16
 	})
 }
 
@@ -78,6 +98,8 @@ func init() {
 		Rule: "shutdown scripts (traffic with parked notifications and records piling up behind them, Stop / peer close / injected channel faults at any point, records after the stop, restart): on the handler log, every notification that ran had returned before any request of a later inbound record was invoked - also for the notifications that are retained at the stop and drained afterwards; non-trivial = at least two notification handlers ran; distinct = hash of the scenario"})
 	parts = append(parts, engine.Part[sim.Scenario]{Name: "lowlimit", Run: run, Gen: genLow,
 		Rule: "as scenarios, but with Concurrency 1-4 and handlers (of notifications too) that fail, return unmarshalable values or are cancelled before a call stays parked and further requests arrive: below the limit a request of a started record must begin although earlier calls are still running; non-trivial = a notification was parked at a moment when a later record had already been received; distinct = hash of the scenario"})
+	parts = append(parts, engine.Part[sim.Scenario]{Name: "highlimit", Run: runHigh, Gen: genHigh,
+		Rule: "as scenarios, with Concurrency 17-33 (above the CPU count of the machine): the script opens with 14 to limit-1 single parking calls, then 3-12 ordinary steps follow: with fewer handlers running than the limit a later request must begin although that many earlier calls are still running; non-trivial = at least 16 handlers were parked at one quiescent point; distinct = hash of the scenario"})
 }
 
 func TestProp(t *testing.T)   { engine.RunParts(t, "C03", parts) }
